@@ -83,7 +83,8 @@ func c15Run(c c15Case) (denied, allowed int, err error) {
 	edit := func(cfg *config.ClusterConnConfig) {
 		vfUnrelated(cfg, c.Knobs)
 		if c.Policy {
-			cfg.ACLPolicy = &config.ACLPolicy{AllowedMethods: config.AllowedMethods{AdminService: c.AllowedAdmin}}
+			// (the configuration gets its own copy: whatever the proxy does to its list must not reach the oracle's)
+			cfg.ACLPolicy = &config.ACLPolicy{AllowedMethods: config.AllowedMethods{AdminService: append([]string(nil), c.AllowedAdmin...)}}
 			if c.WithNS {
 				cfg.ACLPolicy.AllowedNamespaces = []string{"allowed-ns"}
 			}
